@@ -3,6 +3,7 @@ harness/seq_q.cpp) against Q/Machine.lean (driver mode `q`)."""
 import hashlib
 import os
 import random
+import zlib
 from collections import Counter
 
 import vlib
@@ -15,23 +16,31 @@ THREADINGS = {
 
 
 class Variant:
-    def __init__(self, threading="single", key=0, include=0, proto=0, ordered=0, std="c++17", cxx="g++", opt="-O1", mapk=0):
+    def __init__(self, threading="single", key=0, include=0, proto=0, ordered=0, std="c++17", cxx="g++", opt="-O1", mapk=0,
+                 getevent=0, cci=0):
         self.threading, self.key, self.include, self.proto, self.ordered = threading, key, include, proto, ordered
         self.std, self.cxx, self.opt, self.mapk = std, cxx, opt, mapk
+        self.getevent, self.cci = getevent, cci
 
     @property
     def name(self):
-        return "q_%s_k%d_i%d_p%d_o%d_m%d_%s_%s_%s" % (self.threading, self.key, self.include, self.proto, self.ordered, self.mapk,
-                                                      self.cxx.replace("+", "p"), self.std.replace("+", "p"), self.opt.strip("-"))
+        return "q_%s_k%d_i%d_p%d_o%d_m%d_g%d_c%d_%s_%s_%s" % (self.threading, self.key, self.include, self.proto, self.ordered, self.mapk,
+                                                              self.getevent, self.cci,
+                                                              self.cxx.replace("+", "p"), self.std.replace("+", "p"), self.opt.strip("-"))
 
     def job(self):
         return dict(src="seq_q.cpp", out_name=self.name, std=self.std, cxx=self.cxx, opt=self.opt,
                     defines=["VH_THREADING=" + THREADINGS[self.threading], "VH_KEY=%d" % self.key,
                              "VH_INCLUDE=%d" % self.include, "VH_PROTO=%d" % self.proto, "VH_ORDERED=%d" % self.ordered,
-                             "VH_MAP=%d" % self.mapk])
+                             "VH_MAP=%d" % self.mapk, "VH_GETEVENT=%d" % self.getevent, "VH_CCI=%d" % self.cci])
 
-    def cfg_lines(self):
+    def cfg_lines(self, name=""):
         l = []
+        if self.cci:
+            # the canContinueInvoking policy of this script: continue iff value % M != R (M = 0: always)
+            h = zlib.crc32(name.encode())
+            m = [0, 2, 2, 3, 4][h % 5]
+            l.append("cfg cci %d %d" % (m, (h >> 8) % m if m else 0))
         if self.include:
             l.append("cfg include 1")
         if self.proto == 1:
@@ -145,7 +154,7 @@ def gen_script(rng, name, profile, max_ops=50):
 
 def with_cfg(script, variant):
     lines = script.splitlines()
-    return "\n".join([lines[0]] + variant.cfg_lines() + lines[1:]) + "\n"
+    return "\n".join([lines[0]] + variant.cfg_lines(lines[0].split()[1] if len(lines[0].split()) > 1 else "") + lines[1:]) + "\n"
 
 
 def first_diff(a, b):
@@ -165,7 +174,7 @@ def run_batch(exe, texts, names, timeout=120):
     return res, (rc_i, err_i), (rc_m, err_m)
 
 
-def run_one(exe, text, timeout=20):
+def run_one(exe, text, timeout=8):
     name = text.splitlines()[0].split()[1]
     res, i, m = run_batch(exe, [text], [name], timeout)
     return res[0], i
